@@ -2,7 +2,7 @@
    from the other writers since it joined; the queue is bounded; a reader whose queue is full is
    dropped rather than skipped over.
    Only statements, each closed by [exact] of a lemma proved in Proofs/Hub_proofs.v. *)
-From Relay Require Import Base.Prelude Model.Hub Proofs.Hub_proofs.
+From Relay Require Import Base.Prelude Model.Hub Proofs.Hub_proofs Proofs.Hub_more_proofs.
 
 (* every history: what a reader has written, is writing and has queued is, in order, a prefix of the hub's messages that concern it since it registered; the prefix is everything while it is a member, and a proper prefix once it has been dropped for a full queue *)
 Theorem C05_stream_inv :
@@ -96,6 +96,62 @@ Theorem C05_effective_cap :
             ((z < 1 \/ 512 < z)%Z -> effective_cap z = 256).
 Proof. exact (fun z => conj (effective_cap_legal z) (conj (effective_cap_in_range z) (effective_cap_fallback z))). Qed.
 Print Assumptions C05_effective_cap.
+
+(* every history: a reader is dropped for a full queue only if MORE messages than its queue holds were sent to it since it joined *)
+Theorem C05_evicted_only_beyond_capacity :
+  forall evs c, In c (conns (run init evs)) -> can_read c = true -> st c = Evicted ->
+    cap c < length (relevant c (log_since (run init evs) c)).
+Proof. exact evicted_only_beyond_capacity. Qed.
+Print Assumptions C05_evicted_only_beyond_capacity.
+
+(* hence: with at most cap messages sent to it since it joined, however fast and however it stalls, a reader is never dropped *)
+Theorem C05_within_capacity_never_dropped :
+  forall evs c, In c (conns (run init evs)) -> can_read c = true ->
+    length (relevant c (log_since (run init evs) c)) <= cap c -> st c <> Evicted.
+Proof. exact within_capacity_never_dropped. Qed.
+Print Assumptions C05_within_capacity_never_dropped.
+
+(* the writer makes progress: for a reader whose socket is open, taking the head and closing the frame puts exactly the head of the queue on the socket as the next frame; a follow-on step appends exactly the next queued message to the open frame *)
+Theorem C05_writer_progress :
+  forall c h q, is_closed c = false -> queue c = h :: q ->
+    (can_read c = true -> cur c = [] ->
+       out (close_frame (take c)) = out c ++ [[h]] /\ queue (close_frame (take c)) = q /\
+       cur (close_frame (take c)) = [] /\ st (close_frame (take c)) = st c) /\
+    (cur c <> [] -> cur (more c) = cur c ++ [h] /\ queue (more c) = q /\ out (more c) = out c).
+Proof.
+  exact (fun c h q Hcl Hq => conj (fun Hr Hcur => drain_progress c h q Hcl Hr Hcur Hq)
+                                  (fun Hcur => more_progress c h q Hcl Hcur Hq)).
+Qed.
+Print Assumptions C05_writer_progress.
+
+(* the read limit: a message of more than 10 MiB is not relayed - the hub log and what everybody holds stay as they are - and every connection of the sender's name is closed; up to the limit the message goes to the hub as it is *)
+Theorem C05_read_limit :
+  forall s n mt size d,
+    ((max_message_size < size)%N ->
+       read_event n mt size d = Unregister n /\
+       log (step s (read_event n mt size d)) = log s /\
+       (forall c', In c' (conns (step s (read_event n mt size d))) -> name c' = n -> st c' = Closed) /\
+       (forall c', In c' (conns (step s (read_event n mt size d))) -> exists c, In c (conns s) /\ content c' = content c)) /\
+    ((size <= max_message_size)%N -> read_event n mt size d = Recv n mt d).
+Proof.
+  exact (fun s n mt size d => conj (oversize_drops_writer s n mt size d) (within_limit_is_received n mt size d)).
+Qed.
+Print Assumptions C05_read_limit.
+
+(* non-vacuity of the four above: capacity 2; three messages evict the stalled reader 2 (3 > 2), reader 3 drained in between and stays; the oversize message closes writer 1 and leaves the log alone *)
+Example C05_capacity_witness :
+  let w := mkclient 1 "a" true true 2 [] [] [] Joined 0 in
+  let r2 := mkclient 2 "a" true false 2 [] [] [] Joined 0 in
+  let r3 := mkclient 3 "a" true false 2 [] [] [] Joined 0 in
+  let h := ([Register w; Register r2; Register r3; Recv 1 1 [10]; Recv 1 2 [11]] ++ drain 3 1%nat ++ [Recv 1 1 [12]])%N in
+  let s := run init h in
+  let s' := step s (read_event 1 2 10485761 [13])%N in
+  map st (conns s) = [Joined; Evicted; Joined] /\
+  map (fun c => (cap c, length (relevant c (log_since s c)))) (conns s) = [(2, 0); (2, 3); (2, 3)] /\
+  map (fun c => map wire (out c)) (conns s) = [[]; []; [(1, [10; 11])]]%N /\
+  map st (conns s') = [Closed; Evicted; Joined] /\ length (log s') = 3 /\
+  read_event 1 2 10485760 [13]%N = Recv 1 2 [13]%N.
+Proof. vm_compute. repeat split. Qed.
 
 (* non-vacuity: writer 1, slow reader 2 with capacity 1 and reader 3 with capacity 2 on one topic.
    The second message finds reader 2's queue full: it is dropped (Evicted), still drains the one
